@@ -1,0 +1,93 @@
+//go:build verif
+
+package dnsserver
+
+// Contracts for govc (see /verif/DESIGN.md).  Comment-only file.
+
+//@ import dns github.com/miekg/dns
+
+// ---------------------------------------------------------------------------
+// C08: size limits, truncation, OPT echo, padding.
+
+//@ func maxDNSSize
+//@   property C08
+//@   ensures n == (network != NetworkUDP ? 65535 : max(min(ednsUDPSize, maxMsgSize), 512))
+
+//@ func (Protocol).IsStdEncrypted
+//@   property C08
+//@   ensures ok == (p == ProtoDoT || p == ProtoDoH || p == ProtoDoQ)
+//@ func (Protocol).HasPaddingSupport
+//@   property C08
+//@   ensures ok == (p == ProtoDoT || p == ProtoDoH || p == ProtoDoQ)
+
+// lastOPT(m, i): index i holds the OPT record that IsEdns0 returns.
+//@ pred lastOPT(m *dns.Msg, i int) = 0 <= i && i < len(m.Extra) && isOPT(m.Extra[i]) &&
+//@        (forall k int :: i < k && k < len(m.Extra) ==> !isOPT(m.Extra[k]))
+//@ pred noOPT(m *dns.Msg) = forall i int :: 0 <= i && i < len(m.Extra) ==> !isOPT(m.Extra[i])
+
+//@ func truncate
+//@   property C08
+//@   requires resp != nil
+//@   modifies resp.Compress, resp.Truncated, resp.Answer, resp.Ns, resp.Extra, allelems(dns.RR), truncSize[resp]
+//@   ensures tc-implies-empty-answer: resp.Truncated ==> len(resp.Answer) == 0
+//@   ensures truncSize[resp] == size
+//@   ensures forall i int :: old(lastOPT(resp, i)) ==> (exists j int :: lastOPT(resp, j) && resp.Extra[j] == old(resp.Extra[i]))
+//@   ensures old(noOPT(resp)) ==> noOPT(resp)
+//@   ensures resp.Id == old(resp.Id) && resp.Response == old(resp.Response) && resp.Rcode == old(resp.Rcode) && resp.Question == old(resp.Question)
+
+//@ func findOption[*github.com/miekg/dns.EDNS0_PADDING]
+//@   property C08
+//@   requires rr != nil && optsValid(rr)
+//@   ensures o != nil ==> (exists i int :: 0 <= i && i < len(rr.Option) && rr.Option[i] == asiface(o))
+//@   ensures o == nil ==> !hasPad(rr)
+//@   loop 1 invariant -1 <= #i && #i < len(rr.Option) && o == nil
+//@   loop 1 invariant forall k int :: 0 <= k && k <= #i ==> !isPad(rr.Option[k])
+
+//@ func padAnswer
+//@   property C08
+//@   requires reqOpt != nil && respOpt != nil && optsValid(reqOpt) && optsValid(respOpt)
+//@   modifies respOpt.Option, allelems(dns.EDNS0), dns.EDNS0_PADDING.Padding
+//@   ensures only-when-requested: !old(hasPad(reqOpt)) ==> respOpt.Option == old(respOpt.Option) &&
+//@             (forall i int :: 0 <= i && i < len(respOpt.Option) ==> respOpt.Option[i] == old(respOpt.Option[i]))
+//@   ensures padded-when-requested: old(hasPad(reqOpt)) ==> (exists j int :: 0 <= j && j < len(respOpt.Option) && isPad(respOpt.Option[j]) &&
+//@             1 <= len(asptr(respOpt.Option[j], dns.EDNS0_PADDING).Padding) && len(asptr(respOpt.Option[j], dns.EDNS0_PADDING).Padding) <= 31)
+
+//@ func filterUnsupportedOptions
+//@   property C08
+//@   requires forall i int :: 0 <= i && i < len(o) ==> ref(o[i]) != 0
+//@   ensures forall j int :: 0 <= j && j < len(supported) ==> (isptr(supported[j], dns.EDNS0_NSID) || isptr(supported[j], dns.EDNS0_EXPIRE) || !knownOption(supported[j])) && ref(supported[j]) != 0
+//@   ensures supported == nil || fresh(supported)
+//@   loop 1 invariant -1 <= #i && #i < len(o) && (supported == nil || fresh(supported))
+//@   loop 1 invariant forall j int :: 0 <= j && j < len(supported) ==> (isptr(supported[j], dns.EDNS0_NSID) || isptr(supported[j], dns.EDNS0_EXPIRE) || !knownOption(supported[j])) && ref(supported[j]) != 0
+
+// optOf(m, i): the OPT record at index i of the additional section.
+//@ pred optAt(m *dns.Msg, i int) = asptr(m.Extra[i], dns.OPT)
+
+//@ func normalize
+//@   property C08
+//@   requires req != nil && resp != nil
+//@   requires forall i int :: 0 <= i && i < len(req.Extra) && isOPT(req.Extra[i]) ==> ref(req.Extra[i]) != 0 && optsValid(optAt(req, i))
+//@   requires forall i int :: 0 <= i && i < len(resp.Extra) && isOPT(resp.Extra[i]) ==> ref(resp.Extra[i]) != 0 && optsValid(optAt(resp, i))
+//@   modifies resp.Compress, resp.Truncated, resp.Answer, resp.Ns, resp.Extra, allelems(dns.RR), truncSize[resp],
+//@            dns.OPT.Hdr, dns.OPT.Option, allelems(dns.EDNS0), dns.EDNS0_PADDING.Padding
+//@   ensures tc-implies-empty-answer: resp.Truncated ==> len(resp.Answer) == 0
+//@   ensures compressed: resp.Compress
+//@   ensures no-opt-without-request-opt: old(noOPT(req)) && old(noOPT(resp)) ==> noOPT(resp)
+//@   ensures limit-without-opt: old(noOPT(req)) ==> truncSize[resp] == (network != NetworkUDP ? 65535 : max(min(0, maxMsgSize), 512))
+//@   ensures stream-limit: network != NetworkUDP ==> truncSize[resp] == 65535
+//@   ensures limit-with-opt: forall i int :: old(lastOPT(req, i)) ==>
+//@             truncSize[resp] == (network != NetworkUDP ? 65535 : max(min(old(optAt(req, i).Hdr.Class), maxMsgSize), 512))
+//@   ensures opt-echo: forall i int :: old(lastOPT(req, i)) ==> (exists j int :: lastOPT(resp, j) &&
+//@             optAt(resp, j).Hdr.Class == old(optAt(req, i).Hdr.Class) && optVersion(optAt(resp, j).Hdr.Ttl) == 0 &&
+//@             (old(optDo(optAt(req, i).Hdr.Ttl)) ==> optDo(optAt(resp, j).Hdr.Ttl)))
+//@   ensures header-kept: resp.Id == old(resp.Id) && resp.Response == old(resp.Response) && resp.Rcode == old(resp.Rcode) && resp.Question == old(resp.Question)
+
+//@ func normalizeTCP
+//@   property C08
+//@   requires req != nil && resp != nil
+//@   requires forall i int :: 0 <= i && i < len(req.Extra) && isOPT(req.Extra[i]) ==> ref(req.Extra[i]) != 0 && optsValid(optAt(req, i))
+//@   requires forall i int :: 0 <= i && i < len(resp.Extra) && isOPT(resp.Extra[i]) ==> ref(resp.Extra[i]) != 0 && optsValid(optAt(resp, i))
+//@   modifies resp.Compress, resp.Truncated, resp.Answer, resp.Ns, resp.Extra, allelems(dns.RR), truncSize[resp],
+//@            dns.OPT.Hdr, dns.OPT.Option, allelems(dns.EDNS0), dns.EDNS0_PADDING.Padding
+//@   ensures stream-limit: truncSize[resp] == 65535
+//@   ensures tc-implies-empty-answer: resp.Truncated ==> len(resp.Answer) == 0
